@@ -39,6 +39,10 @@ import (
 
 var MetricsMetaSuffix = "metricmeta.json"
 
+// A line of metricmeta.json holds the whole tag key set of a metrics segment, so it can be far
+// longer than the 64 KiB a bufio.Scanner accepts by default.
+const maxMetaLineBytes = 64 * 1024 * 1024
+
 var mMetaLock *sync.RWMutex = &sync.RWMutex{}
 var localMetricsMeta string
 
@@ -106,6 +110,7 @@ func ReadMetricsMeta(mmeta string) (map[string]*structs.MetricsMeta, error) {
 
 	retVal := make(map[string]*structs.MetricsMeta)
 	scanner := bufio.NewScanner(fd)
+	scanner.Buffer(nil, maxMetaLineBytes)
 	for scanner.Scan() {
 		rawbytes := scanner.Bytes()
 		var mMeta structs.MetricsMeta
@@ -191,6 +196,7 @@ func removeMetricsSegmentsByList(metricsMetaFile string, metricsSegmentsToDelete
 	defer fd.Close()
 
 	reader := bufio.NewScanner(fd)
+	reader.Buffer(nil, maxMetaLineBytes)
 	for reader.Scan() {
 		metricSegmentMeta := structs.MetricsMeta{}
 		err = json.Unmarshal(reader.Bytes(), &metricSegmentMeta)
